@@ -614,5 +614,7 @@ def run(ck: Checker) -> None:
     from .c07 import r_xp_compile_each
     ck.guard("R-NO-MEMO", lambda: r_xp_compile_each(ck, "R-NO-MEMO"))
     ck.guard("R-NO-MEMO", lambda: r_no_memo(ck))
+    from .c08 import r_cache_discipline
+    ck.guard("R-NO-MEMO", lambda: r_cache_discipline(ck, "R-NO-MEMO"))  # what a text compiles to does not depend on which other texts were compiled before
     ck.require_count("R-EXC-ESCAPE", 4)
     ck.require_count("R-GRAM-EXH", 8)
